@@ -676,7 +676,7 @@ def run(ctx):
             "A 1 s, A 29 s (quick: never two A in a row), PC, PE"
             + "; rich alphabet (thorough, see exhaustive_part) adds D[H,H], D[E,H], D[H,E], D[O], A 30 s and consecutive A"
             + "; after the transport closed: at most two more events from {I, D[H], A 30 s}; every history is followed by 31 s of silence")
-        n_rand = 4000 if tier == "quick" else 120000
+        n_rand = 2000 if tier == "quick" else 120000
         streams.append(("random", gen_random(rng(seed, "c08rand"), n_rand, 40)))
 
     n_mismatch = 0
